@@ -482,6 +482,18 @@ Section C02.
     | None => None
     end.
 
+  (* create_stream into a blob directory that already holds files, given as (file name, file size) -- a republish.
+     BlobFile.__init__ adopts an existing file of the expected size as verified WITHOUT hashing it, and
+     BlobFile.get_blob_writer then raises OSError("File already exists"); a file of another size is deleted by
+     __init__, which also forgets the blob's length, and HashBlobWriter.write raises OSError("unknown blob length").
+     Either way the publish is refused: neither the file's content nor its size matters, only its name. *)
+  Definition blocked (dir : list (bytes * nat)) (nm : bytes) : bool :=
+    existsb (fun e => bytes_eqb (fst e) nm) dir.
+  Definition create_stream_in (dir : list (bytes * nat)) (old_sort : bool) (name : list N) (key : bytes)
+             (ivf : nat -> bytes) (f : bytes) : option stream :=
+    if existsb (fun c => blocked dir (hex (H c))) (s_cts (build_stream name key ivf f)) then None
+    else create_stream_layout old_sort name key ivf f.
+
   (* --- saving: AbstractBlob.decrypt on every data blob of the descriptor, in order --- *)
   Definition decrypt_blob (key : bytes) (b : blob) (ct : bytes) : option bytes :=
     if negb (Z.eqb (Z.of_nat (length ct)) (b_len b)) then None
